@@ -71,6 +71,16 @@ func TestVerif_C08Once(t *testing.T) {
 	maxLen := env.Int("len", 5)
 	res.Bounds["max_actions"] = maxLen
 	acts := []string{"gA", "gB", "save", "wait", "new", "upd", "del", "views"}
+	// pool=1: entry pool on and a cache of 3 entries, so that "new" evicts and the evicted entry OBJECT is handed to the next
+	// fresh key while reads of its previous key may still sit in the stripe. A delivered read must then not be credited to
+	// the object's new key: an entry whose key was never read is never promoted to the protected region.
+	pool := env.Int("pool", 0) == 1
+	maxSize := int64(100)
+	if pool {
+		acts = []string{"gA", "gB", "wait", "new", "upd"}
+		maxSize = 3
+	}
+	res.Bounds["entry_pool"] = pool
 	keys := c08oKeys(4 + maxLen)
 	if len(keys) < 4+maxLen {
 		res.Error = "could not find keys with disjoint sketch counters"
@@ -105,19 +115,23 @@ func TestVerif_C08Once(t *testing.T) {
 			x /= len(acts)
 		}
 		StripedBufferSize = 1
-		s := NewStore(&StoreOptions[int, int]{MaxSize: 100})
+		s := NewStore(&StoreOptions[int, int]{MaxSize: maxSize, EntryPool: pool})
 		for _, k := range []int{A, B, F, D} {
+			if pool && k == D {
+				continue
+			}
 			s.Set(k, k, 1, 0)
 		}
 		s.Wait()
 		hits := map[int]int{}
+		extraSets := map[int]int{} // pool variant: a Set of an evicted key inserts it anew, which records one more addition
 		nfresh := 0
 		var bad []string
 		check := func(when string, exact bool) {
 			s.policyMu.Lock()
 			for _, k := range []int{A, B} {
 				e := int(s.policy.sketch.Estimate(s.hasher.Hash(k)))
-				want := 1 + hits[k]
+				want := 1 + hits[k] + extraSets[k]
 				if want > 15 {
 					want = 15
 				}
@@ -152,6 +166,9 @@ func TestVerif_C08Once(t *testing.T) {
 				nfresh++
 			case "upd":
 				s.Set(A, 100+i, 1, 0)
+				if pool {
+					extraSets[A]++
+				}
 			case "del":
 				s.Delete(D)
 			case "views":
@@ -173,7 +190,18 @@ func TestVerif_C08Once(t *testing.T) {
 			}
 		}
 		s.Wait()
-		check("at the end", true)
+		check("at the end", !pool) // under eviction pressure (pool variant) a key may have left and come back: only the upper bound applies
+		if pool {
+			s.policyMu.Lock()
+			for _, sh := range s.shards {
+				for k, e := range sh.hashmap {
+					if hits[k] == 0 && e.flag.IsProtected() {
+						bad = append(bad, fmt.Sprintf("over:at the end: key %d was never read, yet its entry sits in the protected region (a read of the entry object's previous key was credited to it)", k))
+					}
+				}
+			}
+			s.policyMu.Unlock()
+		}
 		if len(bad) > 0 {
 			clause, sig := "event-delivered-twice-or-invented", "estimate-above-real-hits"
 			if strings.HasPrefix(bad[0], "under:") {
